@@ -89,7 +89,13 @@ where
     }
 
     fn size_hint(&self) -> (usize, Option<usize>) {
-        self.source.size_hint_items()
+        // the items already pulled from the source are still to be yielded
+        let buffered = self.buffer.len();
+        let (lower, upper) = self.source.size_hint_items();
+        (
+            lower.saturating_add(buffered),
+            upper.and_then(|u| u.checked_add(buffered)),
+        )
     }
 }
 
